@@ -1,9 +1,9 @@
 package rules
 
 import (
-	"math/big"
 	"fmt"
 	"go/types"
+	"math/big"
 	"sort"
 	"strings"
 
